@@ -11,12 +11,12 @@ ID = "C17"
 RULE = ("pairs of discs by class (tangent within k ulps externally/internally, equal, nested, far, lens, radius ratio up to 1e6, "
         "offset positions); non-trivial = proper lens or within 16 ulps of a tangency; distinct = distinct (c1,r1,c2,r2)")
 ASSUMPTIONS = [
-    "finite positive radii between 1e-6 and 1e6, finite centres up to 1e6 in magnitude",
+    "finite positive radii between 1e-6 and 1e6, finite centres up to 1e6 in magnitude; a tenth of the cases are the same configurations rescaled exactly by 2^+-(60..400) (squared radii stay representable)",
     "bounds are judged with the one numeric tolerance the property states, 1e-5*max(r)^2, symmetry with twice that: with nearly equal radii r1^2-r2^2 cancels and the area error reaches ~1e-6*max(r)^2 (seen only in the 20M-case thorough tier), inside the accuracy bound",
 ]
 CASES = {"quick": 600000, "thorough": 20000000}
 MIN_CASES = {"quick": 100000, "thorough": 500000}
-REQUIRED_CLASSES = ["ext_tangent_axis", "int_tangent_axis", "ext_tangent_dir", "int_tangent_dir", "equal", "lens"]
+REQUIRED_CLASSES = ["ext_tangent_axis", "int_tangent_axis", "ext_tangent_dir", "int_tangent_dir", "equal", "lens", "rescaled_up", "rescaled_down"]
 REQUIRED_COUNTERS = ["oracle_compared", "symmetry_checked", "reused_points_checked", "with_rectangle_tolerance_defined"]
 
 _f = None
@@ -121,6 +121,16 @@ def generate(rng, tier, i):
     if rng.random() < 0.2:
         m = max(r1, r2)
         case["move"] = [rng.choice([0.0, 0.3, -0.7]) * m, rng.choice([0.5, -0.25, 1.5, 0.01]) * m]
+    if rng.random() < 0.1:
+        # the same configuration in other units: everything multiplied by a power of two (exact, so the geometry is unchanged);
+        # squares of the radii stay far from overflow / underflow
+        f = 2.0 ** (rng.choice([-1, 1]) * rng.randint(60, 400))
+        case["c1"] = [v * f for v in case["c1"]]
+        case["c2"] = [v * f for v in case["c2"]]
+        case["r1"], case["r2"] = case["r1"] * f, case["r2"] * f
+        if "move" in case:
+            case["move"] = [v * f for v in case["move"]]
+        case["cls"] = "rescaled_" + ("up" if f > 1 else "down")
     return case
 
 
